@@ -32,7 +32,7 @@ fn bounded(lo: f32, hi: f32) -> f32 {
     x
 }
 
-//@H props=C07 kind=proof tier=thorough stubs=yes fn=Universal2DBoxKalmanFilter::predict timeout=2400
+//@H props=C07 kind=proof tier=thorough stubs=yes fn=Universal2DBoxKalmanFilter::predict timeout=900 timebox=yes
 //@H clause: height-scaled noise model of the prediction step: the process noise is built from the PRIOR state's height (position: k=1, floor 1e-2; velocity: k=1, floor 1e-5), whatever the height velocity is (noise helpers by recording stubs)
 #[kani::proof]
 #[kani::stub(Universal2DBoxKalmanFilter::std_position, stub_std_position)]
@@ -74,7 +74,7 @@ fn c07_box_initiate_model() {
     core::mem::forget(b);
 }
 
-//@H props=C07 kind=proof tier=thorough stubs=yes fn=Universal2DBoxKalmanFilter::predict timeout=2400
+//@H props=C07 kind=proof tier=thorough stubs=yes fn=Universal2DBoxKalmanFilter::predict timeout=900 timebox=yes
 //@H clause: a stationary object keeps being predicted where it is: with zero velocity the predicted centre, angle, aspect and height equal the prior ones; with velocity v the predicted position is position + v (constant-velocity motion model, dt = 1)
 #[kani::proof]
 #[kani::stub(Universal2DBoxKalmanFilter::std_position, stub_std_position)]
